@@ -19,18 +19,32 @@ RULE = ("(a) generated-function correspondence: random (method, register size 1-
         "multiples of pi/2, Hermitian or arbitrary complex N/M) — non-trivial when >= 2 modes and a target index > 0; "
         "(b) spectator search: weak correlated displaced mixed prior state on n=2..4 modes, one op on random ordered targets, "
         "spectators' reduced state compared before/after on gaussian, bosonic, fock-pure, fock-mixed — non-trivial when a target is not mode 0 "
-        "or targets are in descending order")
+        "or targets are in descending order; "
+        "(c) post-state stream: preparations, deletions, homodyne / heterodyne / photon-counting measurements (post-selected or not, after deletions), "
+        "twin-beam outcome assignment; "
+        "(d) hardening families: deterministic spectator sweep (every operation x special parameter values 0, T in {0, 1}, multiples of pi/2 x every "
+        "ordered target position of a 3-mode register, all backends; PassiveChannel; bosonic MSgate average map; 5-6 mode registers), New / Del "
+        "histories (bosonic states with several weights: cat / Fock first preparations), BosonicModes.add_mode / del_mode driven directly on "
+        "several-weight states, measurements whose WHOLE post-state is compared with the textbook conditional state for the reported outcome "
+        "(sampled and post-selected homodyne / heterodyne, bosonic threshold detection, Fock-backend photon counting on shuffled mode lists with "
+        "and without select, Fock-backend homodyne at any angle with outcomes of both signs), Gaussian(V, r, decomp=False) on shuffled subsets of "
+        "the modes, Fock-backend preparations (incl. Thermal, DisplacedSqueezed, Ket / DensityMatrix on shuffled mode lists) against independently "
+        "computed closed forms — all of these count as non-trivial")
 TRUSTED_BASE = [
     "Coq 8.16.1 kernel; vm_compute for evaluating generated functions at PrimFloat",
     "translator tools/translate_gauss.py (fail-closed; output validated against GaussianModes on every run at binary64, tol 2^-30)",
     "hand model coq/FockAxes/Model.v of the axis bookkeeping of fockbackend/circuit.py (apply_gate_BLAS, apply_twomode_gate, _apply_channel, mix, prepare, alloc), tied by exact integer-tensor correspondence",
-    "spectator search on the implementation (a test, not a proof): Fock tolerance 1e-6 + 4*sqrt(1 - trace)",
+    "spectator search on the implementation (a test, not a proof): Fock tolerance 1e-6 + 4*sqrt(1 - trace) in the random stream, 1e-6 + 3*min(1 - trace, 5e-3) in the deterministic sweep",
+    "post-state references computed in this module with numpy / scipy only: conditional Gaussian mixtures (Schur complement per component, likelihood re-weighting), "
+    "Wigner-function comparison of mixtures at fixed points, quadrature eigenbras from Hermite functions, D(alpha) S(z)|0> through matrix exponentials at dimension 40; "
+    "a sampled homodyne outcome is compared at 5e-3 (finite squeezing eps = 2e-4 of the simulated detector), Fock-backend homodyne at 3e-3 for |x| <= 1.5",
 ]
 ASSUMPTIONS = ["Fock matrix elements of gates are not modelled (The Walrus / ops.py closed forms)"]
 MANIFEST_TEXT = ("Proved for all register sizes, target positions, states and parameter values: every GaussianModes update method (model regenerated "
                  "from the source each run) leaves every N, M, alpha entry not involving a target mode unchanged; allocation appends a vacuum mode uncorrelated "
                  "with the rest and deletion touches nothing else; Fock gate / two-mode / channel application reads and writes only the target axes (FockAxes: "
-                 "33 theorems, exact integer-tensor correspondence). Bosonic spectators and post-states of preparations / measurements: search (partial).")
+                 "33 theorems, exact integer-tensor correspondence). Bosonic spectators and post-states of preparations / measurements: search (partial): the whole state after a "
+                 "preparation, deletion or measurement is compared with (reduced state of the rest, conditioned on the reported outcome) x (documented target state) on every backend.")
 
 GAUSS_NAMES = list(sfgen.GAUSSIAN_GATES) + list(sfgen.CHANNELS) + list(sfgen.PREPS)
 FOCK_NAMES = [x for x in GAUSS_NAMES if x not in ("ThermalLossChannel", "Thermal")] + ["Kgate", "Vgate", "CKgate", "Fock"]
@@ -145,7 +159,7 @@ def spectators_changed(backend, n, pre, cmd, cutoff=8):
 
 def search(ctx):
     rng = ctx.rng
-    per = ctx.budget({"gaussian": 80, "bosonic": 60, "fock-pure": 24, "fock-mixed": 16},
+    per = ctx.budget({"gaussian": 80, "bosonic": 60, "fock-pure": 12, "fock-mixed": 8},   # (Fock: the deterministic sweep below carries the quick tier)
                      {"gaussian": 800, "bosonic": 500, "fock-pure": 200, "fock-mixed": 120})
     for backend, cnt in per.items():
         for _ in range(cnt):
@@ -391,3 +405,873 @@ def search(ctx):
             ctx.case({k: v for k, v in data.items() if k != "pre"}, nontrivial=True, bucket="post-%s-%s" % (backend, data.get("kind")))
             if sig:
                 ctx.counterexample(sig, "after %s on the %s backend the documented post-state does not hold (%s)" % (data.get("kind"), backend, sig), data)
+
+
+# ------------------------------------------------------------------------------------------
+# hardening round (self-mutation).  Everything below evaluates the property's own predicate on the implementation:
+#   sweep  — deterministic spectator sweep: every operation x special parameter values (0, T in {0, 1}, multiples of pi/2) x every
+#            (ordered) target position of a 3-mode register, on every backend
+#   hist   — registers that grow and shrink (New / Del) with operations in between; bosonic states with several weights
+#   cond   — homodyne / heterodyne / threshold measurements, sampled or post-selected, both signs, after deletions, on Gaussian and
+#            several-weight bosonic states: the WHOLE state afterwards = textbook conditional state for the reported outcome
+#   prepg  — Gaussian(V, r, decomp=False) on a shuffled subset of the modes (fromscovmat / fromsmean, from_covmat / from_mean)
+#   prepf  — Fock-backend preparations (incl. Thermal, DisplacedSqueezed, Ket / DensityMatrix on shuffled mode lists) against
+#            closed forms computed independently: state afterwards = (reduced state of the rest before) (x) prepared state
+#   mfock  — MeasureFock sampled / post-selected on shuffled mode lists: state afterwards = <x| rho |x> / p (x) vacuum
+#   hfock  — Fock-backend MeasureHomodyne (any angle, outcomes of both signs): rest = <x_phi| rho |x_phi> / p with the exact
+#            quadrature eigenbra in the Fock basis (Hermite functions)
+import itertools as _it
+import math as _math
+
+_search_v2 = search
+_HARD_TOL = 2e-5
+
+
+def _mixture(state):
+    """(weights, means, covs) of a Gaussian / bosonic state: xxpp order, hbar = 2, complex arrays of shape (W,), (W, 2n), (W, 2n, 2n)."""
+    if hasattr(state, "weights"):
+        w = np.array(state.weights(), dtype=complex)
+        mus = np.array(state.means(), dtype=complex)
+        Vs = np.array(state.covs(), dtype=complex)
+        n = mus.shape[1] // 2
+        perm = [2 * i for i in range(n)] + [2 * i + 1 for i in range(n)]
+        return w, mus[:, perm], Vs[:, perm][:, :, perm]
+    return np.array([1.0 + 0j]), np.array([state.means()], dtype=complex), np.array([state.cov()], dtype=complex)
+
+
+def _mix_reduce(mix, modes):
+    w, mus, Vs = mix
+    n = mus.shape[1] // 2
+    idx = list(modes) + [m + n for m in modes]
+    return w, mus[:, idx], Vs[:, idx][:, :, idx]
+
+
+def _mix_moments(mix):
+    w, mus, Vs = mix
+    mu = np.einsum("i,ij->j", w, mus)
+    cov = np.einsum("i,ijk->jk", w, Vs) + np.einsum("i,ij,ik->jk", w, mus, mus) - np.outer(mu, mu)
+    return mu, cov
+
+
+def _wigner(mix, pts):
+    w, mus, Vs = mix
+    out = np.zeros(len(pts), dtype=complex)
+    for wi, mu, V in zip(w, mus, Vs):
+        d = pts - mu
+        out = out + wi * np.exp(-0.5 * np.einsum("pi,ij,pj->p", d, np.linalg.inv(V), d)) / np.sqrt(np.linalg.det(2 * np.pi * V) + 0j)
+    return out
+
+
+def _mix_delta(a, b):
+    """distance between two Gaussian mixtures on the same modes: first / second moments when both have one component, otherwise
+    the Wigner function at fixed points around the mean (relative to its largest value there)."""
+    if a[1].shape[1] != b[1].shape[1]:
+        return float("inf")
+    if len(a[0]) == 1 and len(b[0]) == 1:
+        scale = max(1.0, float(np.abs(a[2][0]).max()))
+        return float(max(np.abs(a[1][0] - b[1][0]).max(), np.abs(a[2][0] - b[2][0]).max(), abs(a[0][0] - b[0][0])) / scale)
+    dim = a[1].shape[1]
+    mu, cov = _mix_moments(a)
+    rs = np.random.RandomState(4242 + dim)
+    spread = np.sqrt(np.clip(np.real(np.diag(cov)), 0.25, 9.0))
+    pts = np.real(mu) + rs.normal(size=(24, dim)) * spread * 0.8
+    wa, wb = _wigner(a, pts), _wigner(b, pts)
+    return float(np.abs(wa - wb).max() / max(np.abs(wa).max(), 1e-12))
+
+
+def _condition(mix, k, kind, phi, outcome):
+    """Textbook conditional state of the other modes for a measurement of mode k (position), k itself reset to vacuum.
+    kind 'homodyne': ideal measurement of x_phi = cos(phi) x + sin(phi) p with result `outcome`;
+    kind 'heterodyne': projection on the coherent state `outcome` (effect covariance 1, vector 2 (Re, Im)).
+    Returns (mixture with normalised weights, unnormalised weights = prior weight x likelihood of the outcome)."""
+    w, mus, Vs = mix
+    n = mus.shape[1] // 2
+    B = [k, k + n]
+    A = [i for i in range(2 * n) if i not in B]
+    w2, m2, V2 = [], [], []
+    for wi, mu, V in zip(w, mus, Vs):
+        VA, VAB, VB = V[np.ix_(A, A)], V[np.ix_(A, B)], V[np.ix_(B, B)]
+        mA, mB = mu[A], mu[B]
+        if kind == "homodyne":
+            q = np.array([_math.cos(phi), _math.sin(phi)])
+            var = q @ VB @ q
+            gain = (VAB @ q) / var
+            VA2 = VA - np.outer(gain, VAB @ q)
+            mA2 = mA + gain * (outcome - q @ mB)
+            lik = np.exp(-0.5 * (outcome - q @ mB) ** 2 / var) / np.sqrt(2 * np.pi * var + 0j)
+        else:
+            u = np.array([2 * complex(outcome).real, 2 * complex(outcome).imag])
+            S = VB + np.eye(2)
+            Kg = VAB @ np.linalg.inv(S)
+            VA2 = VA - Kg @ VAB.T
+            mA2 = mA + Kg @ (u - mB)
+            lik = np.exp(-0.5 * (u - mB) @ np.linalg.inv(S) @ (u - mB)) / np.sqrt(np.linalg.det(2 * np.pi * S) + 0j)
+        Vn = np.eye(2 * n, dtype=complex)
+        mn = np.zeros(2 * n, dtype=complex)
+        Vn[np.ix_(A, A)] = VA2
+        mn[A] = mA2
+        w2.append(wi * lik)
+        m2.append(mn)
+        V2.append(Vn)
+    w2 = np.array(w2)
+    return (w2 / np.sum(w2), np.array(m2), np.array(V2)), w2
+
+
+def _traced_vac(mix, k):
+    """mode k traced out and replaced by vacuum"""
+    w, mus, Vs = mix
+    n = mus.shape[1] // 2
+    mus, Vs = mus.copy(), Vs.copy()
+    for i in (k, k + n):
+        mus[:, i] = 0
+        Vs[:, i, :] = 0
+        Vs[:, :, i] = 0
+        Vs[:, i, i] = 1
+    return w, mus, Vs
+
+
+def _nongauss_prefix(rng, backend, n):
+    """weak correlated prefix; on the bosonic backend sometimes with a non-Gaussian first preparation (several weights)"""
+    pre = bc.weak_prefix(rng, n)
+    if backend == "bosonic" and rng.random() < 0.4:
+        j = rng.randrange(n)
+        ng = rng.choice([["Catstate", [round(rng.uniform(0.5, 1.1), 3), round(rng.uniform(-1, 1), 3), rng.choice([0, 1, 0.5])]],
+                         ["Catstate", [round(rng.uniform(0.5, 1.1), 3), 0.0, rng.choice([0, 1])]], ["Fock", [1]]])
+        pre = [[ng[0], ng[1], [j], False]] + pre
+    return pre
+
+
+# ---- cond -----------------------------------------------------------------------------------------------------------------
+
+def gen_cond(rng, backend, i=0):
+    n = rng.randint(2, 3) if backend == "bosonic" else rng.randint(2, 4)
+    d = {"check": "hard", "fam": "cond", "backend": backend, "n": n, "pre": _nongauss_prefix(rng, backend, n)}
+    kinds = [("homodyne", False), ("heterodyne", False), ("homodyne", True), ("heterodyne", True)] + ([("threshold", False)] if backend == "bosonic" else [])
+    d["kind"], want_sel = kinds[i % len(kinds)]
+    d["target"] = rng.randrange(n)
+    d["angle"] = rng.choice([0.0, _math.pi / 2, _math.pi, -_math.pi / 2]) if rng.random() < 0.25 else round(rng.uniform(-_math.pi, _math.pi), 3)
+    d["select"] = None
+    if want_sel:
+        d["select"] = [round(rng.uniform(-0.8, 0.8), 3), round(rng.uniform(-0.6, 0.6), 3)]
+    others = [m for m in range(n) if m != d["target"]]
+    # a history with deleted modes: possibly only the measured mode survives
+    d["deleted"] = sorted(rng.sample(others, rng.randint(1, len(others)))) if rng.random() < 0.3 else []
+    return d
+
+
+def eval_cond(d):
+    backend, n, t, kind = d["backend"], d["n"], d["target"], d["kind"]
+    cm = list(d["pre"]) + [["Del", [], [m], False] for m in d.get("deleted", [])]
+    sel = d.get("select")
+    if kind == "homodyne":
+        mcmd = ["MeasureHomodyne", [d["angle"]], [t], False] if sel is None else ["MeasureHomodyneSel", [d["angle"], sel[0]], [t], False]
+    elif kind == "heterodyne":
+        mcmd = ["MeasureHeterodyne", [], [t], False] if sel is None else ["MeasureHeterodyneSel", [sel[0], sel[1]], [t], False]
+    else:
+        mcmd = ["MeasureThreshold", [], [t], False]
+    before = _mixture(_engine(backend).run(sfgen.build_program({"n": n, "cmds": cm})).state)
+    res = _engine(backend).run(sfgen.build_program({"n": n, "cmds": cm + [mcmd]}))
+    after = _mixture(res.state)
+    outcome = complex(np.ravel(res.samples_dict[t])[0])
+    live = [m for m in range(n) if m not in d.get("deleted", [])]
+    k = live.index(t)
+    how = "sampled" if sel is None else "selected"
+    tag = "measure:%s:%s:%s:" % (backend, kind, how)
+    if sel is not None and abs(outcome - (sel[0] if kind == "homodyne" else complex(sel[0], sel[1]))) > 1e-9:
+        return tag + "reported-outcome-is-not-the-selected-value"
+    if kind == "threshold":
+        cond0, w0 = _condition(before, k, "heterodyne", 0.0, 0.0)
+        p0 = 4 * np.pi * np.sum(w0)   # overlap with vacuum = (2 pi hbar) * integral W_rho W_vac
+        if int(round(outcome.real)) == 0:
+            expect = cond0
+        else:
+            tv = _traced_vac(before, k)
+            expect = (np.concatenate([tv[0], -4 * np.pi * w0]) / (1 - p0), np.concatenate([tv[1], cond0[1]]), np.concatenate([tv[2], cond0[2]]))
+    else:
+        expect, _ = _condition(before, k, kind, d["angle"], outcome.real if kind == "homodyne" else outcome)
+    # a sampled homodyne measurement is simulated as a general-dyne measurement with a finitely squeezed effect (eps = 2e-4) whose
+    # unreported p outcome moves the conditional means by O(eps) * correlation: tolerance 5e-3 there, 2e-5 everywhere else
+    tol = 5e-3 if (kind == "homodyne" and sel is None) else _HARD_TOL
+    if _mix_delta(_mix_reduce(expect, [k]), _mix_reduce(after, [k])) > _HARD_TOL:
+        return tag + "target-not-vacuum"
+    if _mix_delta(expect, after) > tol:
+        rest = [i for i in range(len(live)) if i != k]
+        if rest and _mix_delta(_mix_reduce(expect, rest), _mix_reduce(after, rest)) > tol:
+            return tag + "rest-not-conditional-state"
+        return tag + "target-correlated-with-rest"
+    return None
+
+
+# ---- prepg ----------------------------------------------------------------------------------------------------------------
+
+def _random_gaussian(rng, k):
+    """a physical k-mode covariance (xxpp, hbar = 2) with x-p and inter-mode correlations, and a mean vector"""
+    rs = np.random.RandomState(rng.randrange(2 ** 31))
+    q, r = np.linalg.qr(rs.randn(k, k) + 1j * rs.randn(k, k))
+    U = q * (np.diag(r) / np.abs(np.diag(r)))
+    O = np.block([[U.real, -U.imag], [U.imag, U.real]])
+    sq = rs.uniform(0.1, 0.5, size=k)
+    nu = 1 + rs.uniform(0.0, 0.8, size=k)
+    q2, r2 = np.linalg.qr(rs.randn(k, k) + 1j * rs.randn(k, k))
+    U2 = q2 * (np.diag(r2) / np.abs(np.diag(r2)))
+    O2 = np.block([[U2.real, -U2.imag], [U2.imag, U2.real]])
+    S = O @ np.diag(np.concatenate([np.exp(-sq), np.exp(sq)])) @ O2
+    V = S @ np.diag(np.concatenate([nu, nu])) @ S.T
+    V = (V + V.T) / 2
+    return np.round(V, 6).tolist(), np.round(rs.uniform(-0.8, 0.8, size=2 * k), 3).tolist()
+
+
+def gen_prepg(rng, backend, i=0):
+    n = rng.randint(2, 3) if backend == "bosonic" else rng.randint(2, 4)
+    k = rng.randint(1, n)
+    V, r = _random_gaussian(rng, k)
+    return {"check": "hard", "fam": "prepg", "backend": backend, "n": n, "pre": _nongauss_prefix(rng, backend, n),
+            "modes": rng.sample(range(n), k), "V": V, "r": r}
+
+
+def eval_prepg(d):
+    backend, n, modes = d["backend"], d["n"], d["modes"]
+    before = _mixture(_engine(backend).run(sfgen.build_program({"n": n, "cmds": d["pre"]})).state)
+    cmd = ["GaussianNoDecomp", [d["V"], d["r"]], modes, False]
+    after = _mixture(_engine(backend).run(sfgen.build_program({"n": n, "cmds": list(d["pre"]) + [cmd]})).state)
+    k = len(modes)
+    idx = list(modes) + [m + n for m in modes]
+    w, mus, Vs = (x.copy() for x in before)
+    mus[:, idx] = np.array(d["r"])
+    Vs[:, idx, :] = 0
+    Vs[:, :, idx] = 0
+    for c in range(len(w)):
+        Vs[c][np.ix_(idx, idx)] = np.array(d["V"])
+    expect = (w, mus, Vs)
+    tag = "prep:%s:gaussian-state:" % backend
+    rest = [m for m in range(n) if m not in modes]
+    # targets listed in ascending order for the reduced comparison (the expected state already places each listed mode)
+    if _mix_delta(_mix_reduce(expect, sorted(modes)), _mix_reduce(after, sorted(modes))) > 1e-7:
+        return tag + "target-not-prepared-state"
+    if rest and _mix_delta(_mix_reduce(expect, rest), _mix_reduce(after, rest)) > 1e-7:
+        return tag + "rest-changed"
+    if _mix_delta(expect, after) > 1e-7:
+        return tag + "target-correlated-with-rest"
+    return None
+
+
+# ---- Fock-backend helpers -------------------------------------------------------------------------------------------------
+
+def _fock_prefix(rng, n):
+    """entangled, displaced state with very little energy (cutoff 6-7 loses ~1e-7 of the trace)"""
+    cmds = []
+    for i in range(n):
+        cmds.append(["Sgate", [round(rng.uniform(0.08, 0.2), 3) * rng.choice([1, -1]), round(rng.uniform(-1, 1), 3)], [i], False])
+        cmds.append(["Dgate", [round(rng.uniform(0.1, 0.25), 3), round(rng.uniform(-2, 2), 3)], [i], False])
+    for i in range(n - 1):
+        cmds.append(["BSgate", [round(rng.uniform(0.4, 1.1), 3), round(rng.uniform(-1, 1), 3)], [i, i + 1], False])
+    if n > 2:
+        cmds.append(["BSgate", [round(rng.uniform(0.4, 1.1), 3), round(rng.uniform(-1, 1), 3)], [n - 1, 0], False])
+    return cmds
+
+
+def _dm_reduce(dm, keep):
+    """reduced density tensor on the modes `keep` (ascending), axes (i, j) per mode; numpy traces only"""
+    n = dm.ndim // 2
+    for m in sorted(set(range(n)) - set(keep), reverse=True):
+        dm = np.trace(dm, axis1=2 * m, axis2=2 * m + 1)
+    return dm
+
+
+def _dm_place(rest_dm, rest, tg_dm, tg, n):
+    """(state of `rest`) (x) (state of `tg`, its subsystems in the listed order) as a 2n-axis tensor"""
+    outer = np.multiply.outer(rest_dm, tg_dm) if rest else tg_dm
+    dest = [x for m in list(rest) + list(tg) for x in (2 * m, 2 * m + 1)]
+    return np.moveaxis(outer, list(range(2 * n)), dest)
+
+
+def _ref_prepared(name, p, cutoff, big=40):
+    """density matrix of the documented prepared state, computed independently of fockbackend/ops.py"""
+    from scipy.linalg import expm
+    a = np.diag(np.sqrt(np.arange(1, big)), 1).astype(complex)
+    ad = a.conj().T
+    vac = np.zeros(big, dtype=complex)
+    vac[0] = 1
+
+    def D(al):
+        return expm(al * ad - np.conj(al) * a)
+
+    def S(z):
+        return expm(0.5 * (np.conj(z) * a @ a - z * ad @ ad))
+    if name == "Thermal":
+        nb = p[0]
+        return np.diag([nb ** j / (nb + 1) ** (j + 1) for j in range(cutoff)]).astype(complex)
+    if name == "Vacuum":
+        psi = vac
+    elif name == "Coherent":
+        psi = D(p[0] * np.exp(1j * p[1])) @ vac
+    elif name == "Squeezed":
+        psi = S(p[0] * np.exp(1j * p[1])) @ vac
+    elif name == "DisplacedSqueezed":
+        psi = D(p[0] * np.exp(1j * p[1])) @ S(p[2] * np.exp(1j * p[3])) @ vac
+    elif name == "Fock":
+        psi = np.zeros(big, dtype=complex)
+        psi[p[0]] = 1
+    else:
+        raise KeyError(name)
+    psi = psi[:cutoff]
+    return np.outer(psi, psi.conj())
+
+
+def _fock_states(backend, n, cutoff, cmds, tail):
+    """(dm before, Result after) for `cmds` and `cmds + tail` (tail: callable(q))"""
+    before = _engine(backend, cutoff).run(_build(n, cmds, lambda q: None)).state
+    res = _engine(backend, cutoff).run(_build(n, cmds, tail))
+    return before, res
+
+
+# ---- prepf ----------------------------------------------------------------------------------------------------------------
+
+def gen_prepf(rng, backend, i=0):
+    n = rng.randint(2, 3)
+    d = {"check": "hard", "fam": "prepf", "backend": backend, "n": n, "cutoff": 6, "pre": _fock_prefix(rng, n)}
+    names = ["Coherent", "Thermal", "DisplacedSqueezed", "Ket", "Squeezed", "DensityMatrix", "Fock", "Vacuum"]
+    name = names[i % len(names)]
+    d["prep"] = name
+    ang = lambda: round(rng.uniform(-_math.pi, _math.pi), 3)
+    if name in ("Ket", "DensityMatrix"):
+        k = rng.randint(1, n)
+        d["modes"] = rng.sample(range(n), k)
+        d["seed"] = rng.randrange(2 ** 31)
+        return d
+    d["modes"] = [rng.randrange(n)]
+    d["params"] = {"Vacuum": [], "Coherent": [round(rng.uniform(0.1, 0.4), 3), ang()], "Squeezed": [round(rng.uniform(-0.3, 0.3), 3), ang()],
+                   "DisplacedSqueezed": [round(rng.uniform(0.1, 0.3), 3), ang(), round(rng.uniform(-0.25, 0.25), 3), ang()],
+                   "Thermal": [round(rng.uniform(0.05, 0.3), 3)], "Fock": [rng.randrange(0, 3)]}[name]
+    return d
+
+
+def _random_multimode(seed, k, cutoff, mixed):
+    """an entangled k-mode ket (or a rank-2 density matrix) with complex amplitudes decaying with the photon number"""
+    rs = np.random.RandomState(seed)
+
+    def ket():
+        psi = rs.randn(*([cutoff] * k)) + 1j * rs.randn(*([cutoff] * k))
+        for ax in range(k):
+            sh = [1] * k
+            sh[ax] = cutoff
+            psi = psi * (0.45 ** np.arange(cutoff)).reshape(sh)
+        return psi / np.linalg.norm(psi)
+    if not mixed:
+        psi = ket()
+        return psi, fa._ref_mix(psi, k)
+    a, b = ket(), ket()
+    rho = 0.7 * fa._ref_mix(a, k) + 0.3 * fa._ref_mix(b, k)
+    return rho, rho
+
+
+def eval_prepf(d):
+    backend, n, cutoff, modes, name = d["backend"], d["n"], d["cutoff"], d["modes"], d["prep"]
+    if name in ("Ket", "DensityMatrix"):
+        arg, ref = _random_multimode(d["seed"], len(modes), cutoff, name == "DensityMatrix")
+        op = getattr(_ops, name)(arg)
+    else:
+        ref = _ref_prepared(name, d["params"], cutoff)
+        op = sfgen.make_op(name, d["params"])
+    before, res = _fock_states(backend, n, cutoff, d["pre"], lambda q: op | tuple(q[m] for m in modes))
+    rest = [m for m in range(n) if m not in modes]
+    after = res.state.dm()
+    expect = _dm_place(_dm_reduce(before.dm(), rest), rest, ref, modes, n)
+    tol = 1e-6 + bc.fock_tol(before)[0]
+    tag = "prep:fock:%s:" % name
+    # (the prepared state inherits the trace of the truncated prior state)
+    if np.abs(_dm_reduce(after, sorted(modes)) - _dm_reduce(expect, sorted(modes))).max() > 1e-7 + 2 * abs(1 - bc.fock_tol(before)[1]):
+        return tag + "target-not-prepared-state"
+    if rest and np.abs(_dm_reduce(after, rest) - _dm_reduce(expect, rest)).max() > tol:
+        return tag + "rest-changed"
+    if np.abs(after - expect).max() > tol:
+        return tag + "target-correlated-with-rest"
+    return None
+
+
+# ---- mfock ----------------------------------------------------------------------------------------------------------------
+
+def gen_mfock(rng, backend, i=0):
+    n = 3
+    nums = rng.sample([0, 1, 2], 3)
+    pre = [["Fock", [nums[i]], [i], False] for i in range(n)]
+    for _ in range(rng.randint(1, 3)):
+        a, b = rng.sample(range(n), 2)
+        pre.append(["BSgate", [round(rng.uniform(0.3, 1.2), 3), round(rng.uniform(-1, 1), 3)], [a, b], False])
+        pre.append(["Rgate", [round(rng.uniform(-2, 2), 3)], [rng.randrange(n)], False])
+    order = rng.sample(range(n), rng.randint(1, n))
+    return {"check": "hard", "fam": "mfock", "backend": backend, "n": n, "cutoff": 5, "pre": pre, "modes": order,
+            "select": i % 2 == 0, "pick": rng.random()}
+
+
+def eval_mfock(d):
+    backend, n, cutoff, modes = d["backend"], d["n"], d["cutoff"], d["modes"]
+    before = _engine(backend, cutoff).run(_build(n, d["pre"], lambda q: None)).state
+    rho = before.dm()
+    sel = None
+    if d["select"]:
+        # a post-selected pattern with appreciable probability, preferably with different values on different modes
+        probs = np.real(np.einsum("".join("%s%s" % (chr(97 + i), chr(97 + i)) for i in range(n)) + "->" + "".join(chr(97 + i) for i in range(n)),
+                                  rho))
+        marg = probs.sum(axis=tuple(m for m in range(n) if m not in modes)).transpose(np.argsort(np.argsort(modes))) if len(modes) < n else probs.transpose(np.argsort(np.argsort(modes)))
+        # marg axes are now in the order of `modes`... built from ascending axes: undo below
+        cands = []
+        asc = sorted(modes)
+        pm = probs.sum(axis=tuple(m for m in range(n) if m not in modes)) if len(modes) < n else probs
+        for idx in _it.product(range(cutoff), repeat=len(modes)):
+            p = pm[idx]
+            if p > 0.03:
+                cands.append((len(set(idx)), idx, p))
+        cands.sort(key=lambda c: (-c[0], c[1]))
+        best = [c for c in cands if c[0] == cands[0][0]]
+        idx = best[int(d["pick"] * len(best)) % len(best)][1]
+        byasc = dict(zip(asc, idx))
+        sel = [int(byasc[m]) for m in modes]
+    res = _engine(backend, cutoff).run(_build(n, d["pre"], lambda q: _ops.MeasureFock(select=sel) | tuple(q[m] for m in modes)))
+    out = {m: int(np.ravel(res.samples_dict[m])[0]) for m in modes}
+    tag = "measure:fock:counting:%s:" % ("selected" if sel is not None else "sampled")
+    if sel is not None and [out[m] for m in modes] != sel:
+        return tag + "reported-outcome-is-not-the-selected-value"
+    # <x| rho |x> on the measured modes
+    sl = tuple(out[m // 2] if (m // 2) in out else slice(None) for m in range(2 * n))
+    cond = rho[sl]
+    rest = [m for m in range(n) if m not in modes]
+    p = np.real(np.einsum("".join(chr(97 + i) * 2 for i in range(len(rest))), cond)) if rest else float(np.real(cond))
+    if p < 1e-9:
+        return tag + "outcome-has-zero-probability"
+    vac = np.zeros([cutoff, cutoff] * len(modes), dtype=complex)
+    vac[(0,) * (2 * len(modes))] = 1
+    expect = _dm_place(cond / p, rest, vac, sorted(modes), n)
+    after = res.state.dm()
+    if np.abs(_dm_reduce(after, sorted(modes)) - vac).max() > 1e-7:
+        return tag + "target-not-vacuum"
+    if np.abs(after - expect).max() > 1e-7:
+        return tag + "rest-not-conditional-state"
+    return None
+
+
+# ---- hfock ----------------------------------------------------------------------------------------------------------------
+
+def _x_bra(x, phi, cutoff, hbar=2.0):
+    """<x_phi | n> for n < cutoff: e^{-i n phi} psi_n(x), psi_n the harmonic-oscillator eigenfunctions at this hbar"""
+    from numpy.polynomial.hermite import hermval
+    v = np.zeros(cutoff, dtype=complex)
+    for k in range(cutoff):
+        c = np.zeros(k + 1)
+        c[k] = 1
+        v[k] = ((1 / (np.pi * hbar)) ** 0.25 / _math.sqrt(2.0 ** k * _math.factorial(k)) * hermval(x / _math.sqrt(hbar), c)
+                * _math.exp(-x * x / (2 * hbar)) * np.exp(-1j * k * phi))
+    return v
+
+
+def gen_hfock(rng, backend, i=0):
+    n = rng.randint(2, 3)
+    d = {"check": "hard", "fam": "hfock", "backend": backend, "n": n, "cutoff": 8 if n == 2 else 7, "pre": _fock_prefix(rng, n), "target": rng.randrange(n)}
+    d["angle"] = rng.choice([0.0, _math.pi / 2, -_math.pi / 2]) if rng.random() < 0.25 else round(rng.uniform(-_math.pi, _math.pi), 3)
+    d["select"] = round((1 if i % 2 else -1) * rng.uniform(0.2, 0.9), 3) if i % 3 != 2 else None
+    return d
+
+
+def eval_hfock(d):
+    backend, n, cutoff, t = d["backend"], d["n"], d["cutoff"], d["target"]
+    before, res = _fock_states(backend, n, cutoff, d["pre"], lambda q: _ops.MeasureHomodyne(d["angle"], select=d["select"]) | q[t])
+    x = float(np.real(np.ravel(res.samples_dict[t])[0]))
+    tag = "measure:fock:homodyne:%s:" % ("selected" if d["select"] is not None else "sampled")
+    if d["select"] is not None and abs(x - d["select"]) > 1e-9:
+        return tag + "reported-outcome-is-not-the-selected-value"
+    rho = before.dm()
+    b = _x_bra(x, d["angle"], cutoff)
+    rest = [m for m in range(n) if m != t]
+    cond = np.tensordot(np.tensordot(b, rho, axes=([0], [2 * t])), b.conj(), axes=([2 * t], [0]))   # axes of the rest, in order
+    p = np.real(np.einsum("".join(chr(97 + i) * 2 for i in range(len(rest))), cond))
+    vac = np.zeros((cutoff, cutoff), dtype=complex)
+    vac[0, 0] = 1
+    expect = _dm_place(cond / p, rest, vac, [t], n)
+    after = res.state.dm()
+    if np.abs(_dm_reduce(after, [t]) - vac).max() > 1e-6:
+        return tag + "target-not-vacuum"
+    # the truncated quadrature eigenstate is accurate only for moderate outcomes (error 6e-4 at |x| = 1.5, 1e-2 at 2.5 for cutoff 7-8)
+    if abs(x) <= 1.5 and np.abs(after - expect).max() > 3e-3:
+        return tag + "rest-not-conditional-state"
+    return None
+
+
+# ---- sweep ----------------------------------------------------------------------------------------------------------------
+
+SPECIAL = {"a": [0.0, _math.pi / 2, _math.pi, -_math.pi / 2, 0.7], "t": [0.0, 1.0, 0.5, 0.37], "n": [0.0, 0.25], "d": [0.0, 0.3, 0.2], "r": [0.0, 0.25, -0.25],
+           "k": [0, 1, 2]}
+
+
+def sweep_cases(rng, backend, n, full):
+    fock = backend.startswith("fock")
+    names = list(FOCK_NAMES) + ["Thermal"] if fock else list(GAUSS_NAMES)
+    out = []
+    for oi, name in enumerate(names):
+        nm, kinds = sfgen.ALL[name]
+        nt = max([len(SPECIAL[k]) for k in kinds] + [1])
+        tuples = [[SPECIAL[k][j % len(SPECIAL[k])] for k in kinds] for j in range(nt)]
+        positions = list(_it.permutations(range(n), nm))
+        off = rng.randrange(nt)
+        if fock and not full and nm == 2:
+            # quick tier: four of the six ordered pairs (rotating with the seed), always with descending pairs and pairs ending in mode 0
+            start = rng.randrange(len(positions))
+            positions = [positions[(start + i) % len(positions)] for i in range(4)]
+        for pi, pos in enumerate(positions):
+            js = range(nt) if (full or "t" in kinds) else [(pi + oi + off) % nt]
+            for j in js:
+                dag = (name in sfgen.GAUSSIAN_GATES or name in sfgen.NONGAUSS) and (pi + j) % 4 == 3
+                out.append([name, tuples[j], list(pos), bool(dag)])
+    return out
+
+
+def _spect_delta(backend, before, after, pos_before, pos_after):
+    """(delta, tolerance) between the reduced state on `pos_before` of `before` and on `pos_after` of `after`"""
+    if backend.startswith("fock"):
+        # truncation: an operation that pushes population beyond the cutoff removes a positive part of trace `deficit` from the reduced
+        # state, so entries move by at most the deficit (observed: <= 0.9 x deficit); a tolerance growing like sqrt(deficit) would hide
+        # operations that destroy a large part of the trace, hence linear and capped
+        deficit = max(0.0, 1 - bc.fock_tol(after)[1], 1 - bc.fock_tol(before)[1])
+        tol = 1e-6 + 3 * min(deficit, 5e-3)
+        r0, r1 = _dm_reduce(before.dm(), pos_before), _dm_reduce(after.dm(), pos_after)
+        if r0.shape != r1.shape:
+            return float("inf"), tol
+        return float(np.abs(r0 - r1).max()), tol
+    return _mix_delta(_mix_reduce(_mixture(before), pos_before), _mix_reduce(_mixture(after), pos_after)), 1e-8
+
+
+def run_sweep(ctx, backend, full):
+    rng = ctx.rng
+    n, cutoff = 3, (5 if (backend == "fock-mixed" and not full) else 6)
+    fock = backend.startswith("fock")
+    pre = _fock_prefix(rng, n) if fock else _nongauss_prefix(rng, backend, n)
+    if backend == "fock-mixed":
+        pre = pre + [["LossChannel", [0.85], [rng.randrange(n)], False]]
+    before = bc.run({"n": n, "cmds": pre}, backend, cutoff)
+    cases = sweep_cases(rng, backend, n, full)
+    if backend == "gaussian":   # multi-mode passive transformations on 1-3 modes in any order (apply_u)
+        cases += [sfgen.random_cmd(rng, n, ["PassiveChannel"]) for _ in range(8 if not full else 40)]
+    if backend == "bosonic":    # measurement-based squeezing, average map (expandXY + apply_channel between two phase shifts)
+        cases += [["MSgate", [r, phi, 1.2, eta, True], [pos], False] for pos in range(n) for (r, phi, eta) in ((0.3, 0.4, 0.95), (-0.2, 0.0, 1.0))]
+    for cmd in cases:
+        data = {"check": "hard", "fam": "sweep", "backend": backend, "n": n, "cutoff": cutoff, "pre": pre, "cmd": cmd}
+        nontriv = min(cmd[2]) > 0 or cmd[2] != sorted(cmd[2])
+        ctx.case({"backend": backend, "cmd": cmd}, nontrivial=nontriv, bucket="sweep-%s-%s" % (backend, cmd[0]))
+        try:
+            sig = eval_sweep(data, before)
+        except Exception as e:
+            ctx.counterexample("spectators:%s:%s:raises:%s" % (backend, cmd[0], type(e).__name__), "running %s on %s raised %r" % (cmd, backend, e), data)
+            continue
+        if sig and sig.startswith("prep:"):
+            ctx.counterexample(sig, "after %s on mode %s of a 3-mode register (%s backend) the state is not (reduced state of the rest) x (documented prepared state): %s" % (
+                cmd[0], cmd[2], backend, sig.split(":")[-1]), data)
+        elif sig:
+            ctx.counterexample(sig, "%s%s on modes %s of a 3-mode register changes the reduced state of the other modes on the %s backend" % (
+                cmd[0], ".H" if cmd[3] else "", cmd[2], backend), data)
+
+
+def run_wide(ctx, backend, count):
+    """registers of 5-6 modes: targets and spectators at high positions (Fock backends: cutoff 3 with photon-number
+    conserving operations on a two-photon state, so that nothing is truncated)"""
+    rng = ctx.rng
+    fock = backend.startswith("fock")
+    if fock:
+        n, cutoff = 5, 3
+        ones = rng.sample(range(n), 2)
+        pre = [["Fock", [1], [m], False] for m in ones]
+        for i in range(n):
+            pre.append(["BSgate", [round(rng.uniform(0.4, 1.1), 3), round(rng.uniform(-1, 1), 3)], [i, (i + 1) % n], False])
+        if backend == "fock-mixed":
+            pre.append(["LossChannel", [0.8], [rng.randrange(n)], False])
+        names = ["BSgate", "MZgate", "Rgate", "Kgate", "CKgate", "Fock", "Vacuum", "LossChannel", "Fouriergate"]
+    else:
+        n, cutoff = 6, 3
+        pre = bc.weak_prefix(rng, n)
+        names = list(GAUSS_NAMES) + (["PassiveChannel"] if backend == "gaussian" else [])
+    before = bc.run({"n": n, "cmds": pre}, backend, cutoff)
+    for _ in range(count):
+        cmd = bc.weak_cmd(rng, n, names)
+        if cmd[0] == "Fock":
+            cmd[1] = [rng.randrange(0, 2)]
+        data = {"check": "hard", "fam": "sweep", "backend": backend, "n": n, "cutoff": cutoff, "pre": pre, "cmd": cmd}
+        ctx.case({"backend": backend, "n": n, "cmd": cmd}, nontrivial=True, bucket="wide-%s-%s" % (backend, cmd[0]))
+        try:
+            sig = eval_sweep(data, before)
+        except Exception as e:
+            ctx.counterexample("spectators:%s:%s:raises:%s" % (backend, cmd[0], type(e).__name__), "running %s on %s raised %r" % (cmd, backend, e), data)
+            continue
+        if sig:
+            ctx.counterexample(sig, "%s on modes %s of a %d-mode register changes the reduced state of the other modes on the %s backend" % (
+                cmd[0], cmd[2], n, backend), data)
+
+
+def _ref_gaussian_prep(name, p):
+    """(mean, cov) of the documented single-mode prepared state, (x, p) order, hbar = 2"""
+    def sq(r, phi):
+        ch, sh = _math.cosh(r), _math.sinh(r)
+        S = np.array([[ch - sh * _math.cos(phi), -sh * _math.sin(phi)], [-sh * _math.sin(phi), ch + sh * _math.cos(phi)]])
+        return S @ S.T
+    if name == "Vacuum":
+        return np.zeros(2), np.eye(2)
+    if name == "Coherent":
+        return 2 * p[0] * np.array([_math.cos(p[1]), _math.sin(p[1])]), np.eye(2)
+    if name == "Squeezed":
+        return np.zeros(2), sq(p[0], p[1])
+    if name == "DisplacedSqueezed":
+        return 2 * p[0] * np.array([_math.cos(p[1]), _math.sin(p[1])]), sq(p[2], p[3])
+    if name == "Thermal":
+        return np.zeros(2), (2 * p[0] + 1) * np.eye(2)
+    raise KeyError(name)
+
+
+def _prep_violation(backend, before, after, cmd, n, cutoff):
+    """after a single-mode preparation: whole state = (reduced state of the rest before) x (documented prepared state)"""
+    name, params, (t,) = cmd[0], cmd[1], cmd[2]
+    rest = [m for m in range(n) if m != t]
+    if backend.startswith("fock"):
+        expect = _dm_place(_dm_reduce(before.dm(), rest), rest, _ref_prepared(name, params, cutoff), [t], n)
+        got = after.dm()
+        deficit = max(0.0, 1 - bc.fock_tol(before)[1])
+        if np.abs(_dm_reduce(got, [t]) - _dm_reduce(expect, [t])).max() > 1e-7 + 2 * deficit:
+            return "target-not-prepared-state"
+        if np.abs(got - expect).max() > 1e-6 + 3 * min(deficit, 5e-3):
+            return "target-correlated-with-rest"
+        return None
+    w, mus, Vs = (x.copy() for x in _mixture(before))
+    mr, Vr = _ref_gaussian_prep(name, params)
+    idx = [t, t + n]
+    mus[:, idx] = mr
+    Vs[:, idx, :] = 0
+    Vs[:, :, idx] = 0
+    for c in range(len(w)):
+        Vs[c][np.ix_(idx, idx)] = Vr
+    got = _mixture(after)
+    if _mix_delta(_mix_reduce((w, mus, Vs), [t]), _mix_reduce(got, [t])) > 1e-8:
+        return "target-not-prepared-state"
+    if _mix_delta((w, mus, Vs), got) > 1e-8:
+        return "target-correlated-with-rest"
+    return None
+
+
+def eval_sweep(d, before=None):
+    backend, n, cutoff, pre, cmd = d["backend"], d["n"], d["cutoff"], d["pre"], d["cmd"]
+    if before is None:
+        before = bc.run({"n": n, "cmds": pre}, backend, cutoff)
+    after = bc.run({"n": n, "cmds": list(pre) + [cmd]}, backend, cutoff)
+    spect = [m for m in range(n) if m not in cmd[2]]
+    if not spect:
+        return None
+    delta, tol = _spect_delta(backend, before, after, spect, spect)
+    if delta > tol:
+        return "spectators:%s:%s" % (backend.split("-")[0], cmd[0])
+    if cmd[0] in sfgen.PREPS or cmd[0] == "Fock":
+        v = _prep_violation(backend, before, after, cmd, n, cutoff)
+        if v:
+            return "prep:%s:%s:%s" % (backend.split("-")[0], cmd[0], v)
+    return None
+
+
+# ---- hist -----------------------------------------------------------------------------------------------------------------
+
+def gen_hist(rng, backend, i=0):
+    fock = backend.startswith("fock")
+    names = [x for x in (FOCK_NAMES if fock else GAUSS_NAMES)]
+    n0 = rng.randint(1, 2) if fock else rng.randint(1, 3)
+    spec = sfgen.random_history_spec(rng, names, n0=n0, ncmds=rng.randint(3, 5) if fock else rng.randint(3, 7), max_total=3 if fock else 4,
+                                     p_new=0.3, p_del=0.25, cmd_fn=lambda r, k, av: bc.weak_cmd(r, k, av))
+    pre = _fock_prefix(rng, n0) if fock else _nongauss_prefix(rng, backend, n0)
+    return {"check": "hard", "fam": "hist", "backend": backend, "n": n0, "cutoff": 6, "pre": pre, "steps": spec["cmds"]}
+
+
+def eval_hist(d):
+    backend, n0, cutoff, pre, steps = d["backend"], d["n"], d["cutoff"], d["pre"], d["steps"]
+    fock = backend.startswith("fock")
+    live = list(range(n0))
+    state = bc.run({"n": n0, "cmds": pre}, backend, cutoff)
+    for i, cmd in enumerate(steps):
+        nxt = bc.run({"n": n0, "cmds": list(pre) + list(steps[:i + 1])}, backend, cutoff)
+        name, targets = cmd[0], cmd[2]
+        live2 = live + [targets[0]] if name == "New" else [m for m in live if not (name == "Del" and m == targets[0])]
+        spect = [m for m in live if m not in targets]
+        tag = "history:%s:step-%s:" % (backend.split("-")[0], name)
+        nmodes = (nxt.dm().ndim // 2) if fock else (_mixture(nxt)[1].shape[1] // 2)
+        if nmodes != len(live2):
+            return tag + "wrong-number-of-modes"
+        if spect:
+            delta, tol = _spect_delta(backend, state, nxt, [live.index(m) for m in spect], [live2.index(m) for m in spect])
+            if delta > tol:
+                return tag + "rest-changed"
+        if name == "New":
+            k = live2.index(targets[0])
+            if fock:
+                vac = np.zeros([cutoff, cutoff], dtype=complex)
+                vac[0, 0] = 1
+                if np.abs(nxt.dm() - np.multiply.outer(state.dm(), vac)).max() > 1e-9:
+                    return tag + "new-mode-not-vacuum-or-correlated"
+            else:
+                w, mus, Vs = _mixture(state)
+                nl = len(live)
+                e_m = np.zeros((len(w), 2 * nl + 2), dtype=complex)
+                e_V = np.zeros((len(w), 2 * nl + 2, 2 * nl + 2), dtype=complex)
+                ix = list(range(nl)) + [nl + 1 + j for j in range(nl)]
+                e_m[:, ix] = mus
+                for c in range(len(w)):
+                    e_V[c] = np.eye(2 * nl + 2)
+                    e_V[c][np.ix_(ix, ix)] = Vs[c]
+                if _mix_delta((w, e_m, e_V), _mixture(nxt)) > 1e-8:
+                    return tag + "new-mode-not-vacuum-or-correlated"
+        live, state = live2, nxt
+    return None
+
+
+# ---- bmodes (BosonicModes driven directly: registers that grow / shrink while the state has several weights) ----------------
+
+def _bm_mixture(seed, n, W):
+    rs = np.random.RandomState(seed)
+    import random as _random
+    r2 = _random.Random(seed)
+    means, covs = [], []
+    for _ in range(W):
+        V, r = _random_gaussian(r2, n)
+        means.append(r)
+        covs.append(V)
+    w = rs.uniform(0.2, 1.0, size=W)
+    if W >= 2 and seed % 3 == 0:
+        w[-1] = -0.25 * w[0]          # linear combinations with a negative weight occur for cat / Fock states
+    return (w / w.sum()).astype(complex), np.array(means, dtype=complex), np.array(covs, dtype=complex)
+
+
+def gen_bmodes(rng, backend, i=0):
+    n = rng.randint(1, 3)
+    d = {"check": "hard", "fam": "bmodes", "backend": "bosonic", "n": n, "W": [1, 2, 3, 4][i % 4], "seed": rng.randrange(2 ** 31)}
+    live, total, steps = list(range(n)), n, []
+    for _ in range(rng.randint(3, 6)):
+        r = rng.random()
+        if r < 0.3 and total < 4:
+            peaks = rng.choice([[1], [1], [2], [1, 1]]) if total < 3 else [1]
+            steps.append(["add", peaks])
+            live += list(range(total, total + len(peaks)))
+            total += len(peaks)
+        elif r < 0.5 and len(live) > 1:
+            m = rng.choice(live)
+            live.remove(m)
+            steps.append(["del", m])
+        else:
+            meth = rng.choice([m for m in bm.METHODS if m != "beamsplitter" or len(live) >= 2])
+            tg = rng.sample(live, 2 if meth == "beamsplitter" else 1)
+            # the newest mode is a target more often than not: stale permutation lists show there
+            if rng.random() < 0.5 and live[-1] not in tg:
+                tg[0] = live[-1]
+            steps.append(["op", meth, [bm.draw(rng, k) for _, k in bm.PARAMS[meth]], tg])
+    d["steps"] = steps
+    return d
+
+
+def eval_bmodes(d):
+    from strawberryfields.backends.bosonicbackend.bosoniccircuit import BosonicModes
+    n = d["n"]
+    w, mus, Vs = _bm_mixture(d["seed"], n, d["W"])
+    c = BosonicModes(n, 1)
+    inter = [x for m in range(n) for x in (m, m + n)]          # xxpp -> xpxp
+    c.weights, c.means, c.covs = w.copy(), mus[:, inter].copy(), Vs[:, inter][:, :, inter].copy()
+
+    def snap():
+        k = c.means.shape[1] // 2
+        perm = [2 * j for j in range(k)] + [2 * j + 1 for j in range(k)]
+        return np.array(c.weights, dtype=complex), np.array(c.means, dtype=complex)[:, perm], np.array(c.covs, dtype=complex)[:, perm][:, :, perm]
+    for st in d["steps"]:
+        before = snap()
+        nb = before[1].shape[1] // 2
+        tag = "bosonicmodes:%s:" % (st[0] if st[0] != "op" else st[1])
+        if st[0] == "add":
+            c.add_mode(list(st[1]))
+            after = snap()
+            k = len(st[1])
+            if after[1].shape[1] // 2 != nb + k or c.nlen != nb + k:
+                return tag + "wrong-number-of-modes"
+            if _mix_delta(before, _mix_reduce(after, list(range(nb)))) > 1e-8:
+                return tag + "rest-changed"
+            ww, mm, VV = before
+            e_m = np.zeros((len(ww), 2 * (nb + k)), dtype=complex)
+            e_V = np.zeros((len(ww), 2 * (nb + k), 2 * (nb + k)), dtype=complex)
+            ix = list(range(nb)) + [nb + k + j for j in range(nb)]
+            e_m[:, ix] = mm
+            for j in range(len(ww)):
+                e_V[j] = np.eye(2 * (nb + k))
+                e_V[j][np.ix_(ix, ix)] = VV[j]
+            if len(after[0]) == 1 and len(ww) == 1:
+                bad = _mix_delta((ww, e_m, e_V), after) > 1e-8
+            else:   # force the Wigner comparison (the number of components may have grown)
+                bad = _mix_delta((np.concatenate([ww, [0]]), np.concatenate([e_m, e_m[:1]]), np.concatenate([e_V, e_V[:1]])), after) > 1e-8
+            if bad:
+                return tag + "new-mode-not-vacuum-or-correlated"
+            continue
+        if st[0] == "del":
+            c.del_mode(int(st[1]))
+            after = snap()
+            others = [m for m in range(nb) if m != st[1]]
+            if c.active[st[1]] is not None:
+                return tag + "mode-still-active"
+            if _mix_delta(_mix_reduce(before, others), _mix_reduce(after, others)) > 1e-8:
+                return tag + "rest-changed"
+            if _mix_delta(_traced_vac(before, st[1]), after) > 1e-8:
+                return tag + "deleted-mode-not-reset"
+            continue
+        _, meth, args, tg = st
+        getattr(c, meth)(*(list(args) + list(tg)))
+        after = snap()
+        others = [m for m in range(nb) if m not in tg]
+        if after[1].shape != before[1].shape:
+            return tag + "wrong-number-of-modes"
+        if others and _mix_delta(_mix_reduce(before, others), _mix_reduce(after, others)) > 1e-8:
+            return tag + "spectators-changed"
+    return None
+
+
+# ---- driver ---------------------------------------------------------------------------------------------------------------
+
+HARD = {"cond": (gen_cond, eval_cond), "prepg": (gen_prepg, eval_prepg), "prepf": (gen_prepf, eval_prepf), "mfock": (gen_mfock, eval_mfock),
+        "hfock": (gen_hfock, eval_hfock), "hist": (gen_hist, eval_hist), "bmodes": (gen_bmodes, eval_bmodes)}
+
+
+def search_hard(ctx):
+    rng = ctx.rng
+    for backend in ("gaussian", "bosonic", "fock-pure", "fock-mixed"):
+        run_sweep(ctx, backend, full=not ctx.quick)
+        # (5-mode Fock registers cost ~10 s of numba compilation for the new array ranks: thorough tier only)
+        run_wide(ctx, backend, ctx.budget(12 if backend in ("gaussian", "bosonic") else 0, 120 if backend in ("gaussian", "bosonic") else 40))
+    plan = ctx.budget(
+        {"gaussian": {"cond": 40, "prepg": 16, "hist": 10}, "bosonic": {"cond": 50, "prepg": 16, "hist": 10, "bmodes": 24},
+         "fock-pure": {"prepf": 10, "mfock": 8, "hfock": 5, "hist": 3}, "fock-mixed": {"prepf": 10, "mfock": 8, "hfock": 5, "hist": 3}},
+        {"gaussian": {"cond": 400, "prepg": 150, "hist": 100}, "bosonic": {"cond": 500, "prepg": 150, "hist": 100, "bmodes": 240},
+         "fock-pure": {"prepf": 80, "mfock": 60, "hfock": 40, "hist": 25}, "fock-mixed": {"prepf": 80, "mfock": 60, "hfock": 40, "hist": 25}})
+    for backend, fams in plan.items():
+        for fam, cnt in fams.items():
+            gen, ev = HARD[fam]
+            for i in range(cnt):
+                d = gen(rng, backend, i)
+                small = {k: v for k, v in d.items() if k not in ("pre", "V", "r", "steps")}
+                ctx.case(small, nontrivial=True, bucket="%s-%s-%s" % (fam, backend, d.get("kind") or d.get("prep") or ""))
+                try:
+                    sig = ev(d)
+                except Exception as e:
+                    ctx.counterexample("%s:%s:raises:%s" % (fam, backend, type(e).__name__), "%s case on the %s backend raised %r" % (fam, backend, e), d)
+                    continue
+                if sig:
+                    ctx.counterexample(sig, "%s on the %s backend: the documented post-state / locality does not hold (%s)" % (fam, backend, sig), d)
+
+
+def search(ctx):
+    _search_v2(ctx)
+    search_hard(ctx)
+
+
+_replay_v1 = replay
+
+
+def replay(ctx, data):
+    d = data["data"]
+    if d.get("check") == "hard":
+        sig = eval_sweep(d) if d["fam"] == "sweep" else HARD[d["fam"]][1](d)
+        print("violation:", sig)
+        return bool(sig)
+    return _replay_v1(ctx, data)
